@@ -462,6 +462,8 @@ func (r *rewriter) goStmt(c *astutil.Cursor, g *ast.GoStmt) {
 		stmt(callx),
 	)
 	pre = append(pre, &ast.GoStmt{Call: call(&ast.FuncLit{Type: &ast.FuncType{Params: &ast.FieldList{}}, Body: body})})
+	// a scheduling point for the parent, so that the child may run before the parent's next statement
+	pre = append(pre, stmt(call(rt("Yield"), str(r.site(g)+"/spawned"))))
 	c.Replace(block(pre...))
 	r.count("go")
 }
